@@ -206,6 +206,7 @@ def check_dump_for_tree(ctx, real, model, H):
             bases.append(("tree-prefix-empty", ""))
             for cls, base in bases:
                 ctx.count(cls)
+                state_before = F.real_state(real, "extra")
                 want = model.dump_for_tree(variant, arch, base)
                 out = io.StringIO()
                 try:
@@ -214,6 +215,9 @@ def check_dump_for_tree(ctx, real, model, H):
                 except Exception as e:
                     got = "raised %s: %s" % (type(e).__name__, e)
                 bad = got != want
+                if not bad and F.real_state(real, "extra") != state_before:
+                    bad = True
+                    got = "dump_for_tree changed the manifest: %s" % F.first_diff(state_before, F.real_state(real, "extra"))
                 ctx.monitor("dump-for-tree", fired=bad)
                 if bad:
                     ctx.violation("dump-for-tree", "dump_for_tree strips the base path only on a path-component boundary",
